@@ -1161,3 +1161,285 @@ func (pc *pCtx) p2StopChannels(only string) {
 		}
 	}
 }
+
+// p7Helpers: a helper function that is handed pointers to shared state together with the lock that protects it (Zip's
+// zipInnerSubscription(obs, &mu, &muEmit, &values, &completed, ...)) dereferences each such pointer under one common lock,
+// in every callback it builds. The lockset rule of the operator sites (P7) stops at the call of the helper.
+func (pc *pCtx) p7Helpers(only string) {
+	var paths []string
+	for p := range pc.kc.w.ByPath {
+		if isRoPkg(p) && !strings.Contains(p, "/examples/") && !strings.HasSuffix(p, "/testing") && !strings.Contains(p, "/internal/") {
+			paths = append(paths, p)
+		}
+	}
+	sort.Strings(paths)
+	isMutexPtr := func(t types.Type) bool {
+		pt, ok := t.Underlying().(*types.Pointer)
+		if !ok {
+			return false
+		}
+		n := namedName(pt.Elem())
+		return n == "Mutex" || n == "RWMutex"
+	}
+	// the name of the parameter a value is (directly, through the cell it was captured in, or as a closure's free variable)
+	var rootName func(v ssa.Value) string
+	rootName = func(v ssa.Value) string {
+		switch t := v.(type) {
+		case *ssa.Parameter:
+			return t.Name()
+		case *ssa.FreeVar:
+			return t.Name()
+		case *ssa.Alloc:
+			return t.Comment
+		case *ssa.UnOp:
+			if t.Op == token.MUL {
+				return rootName(t.X)
+			}
+		case *ssa.ChangeType:
+			return rootName(t.X)
+		}
+		return ""
+	}
+	for _, p := range paths {
+		fns := pc.kc.w.allFuncs(p)
+		for _, k := range sortedKeys(fns) {
+			fn := fns[k]
+			if fn.Blocks == nil || fn.Parent() != nil || fn.Signature.Recv() != nil || strings.HasSuffix(pc.kc.w.Prog.Fset.Position(fn.Pos()).Filename, "_test.go") {
+				continue
+			}
+			locks := map[string]bool{}
+			ptrs := map[string]bool{}
+			for _, prm := range fn.Params {
+				if isMutexPtr(prm.Type()) {
+					locks[prm.Name()] = true
+				} else if _, ok := prm.Type().Underlying().(*types.Pointer); ok {
+					ptrs[prm.Name()] = true
+				}
+			}
+			if len(locks) == 0 || len(ptrs) == 0 {
+				continue
+			}
+			name := k
+			if p != roPath {
+				name = strings.TrimPrefix(p, roPath+"/") + "." + k
+			}
+			if only != "" && !strings.Contains(name, only) {
+				continue
+			}
+			tree := closureTree(fn)
+			// which closures are only ever called directly (their entry lockset is what their callers hold)
+			entry := map[*ssa.Function]map[string]bool{}
+			called := map[*ssa.Function]bool{}
+			type access struct {
+				held map[string]bool
+				pos  token.Pos
+			}
+			acc := map[string][]access{}
+			lockOf := func(c *ssa.CallCommon) (string, string) {
+				f := c.StaticCallee()
+				if f == nil || len(c.Args) == 0 {
+					return "", ""
+				}
+				switch f.Name() {
+				case "Lock", "RLock":
+					return rootName(c.Args[0]), "lock"
+				case "Unlock", "RUnlock":
+					return rootName(c.Args[0]), "unlock"
+				}
+				return "", ""
+			}
+			for iter := 0; iter < 4; iter++ {
+				acc = map[string][]access{}
+				next := map[*ssa.Function]map[string]bool{}
+				for _, f := range tree {
+					if f == fn {
+						continue // the helper's own body only wires things up
+					}
+					cur0 := map[string]bool{}
+					if called[f] {
+						for l := range entry[f] {
+							cur0[l] = true
+						}
+					}
+					in := map[*ssa.BasicBlock]map[string]bool{f.Blocks[0]: cur0}
+					work := []*ssa.BasicBlock{f.Blocks[0]}
+					seenB := map[*ssa.BasicBlock]bool{}
+					for len(work) > 0 {
+						b := work[0]
+						work = work[1:]
+						cur := map[string]bool{}
+						for l := range in[b] {
+							cur[l] = true
+						}
+						for _, ins := range b.Instrs {
+							if call, ok := ins.(*ssa.Call); ok {
+								if l, op := lockOf(call.Common()); l != "" && locks[l] {
+									if op == "lock" {
+										cur[l] = true
+									} else {
+										delete(cur, l)
+									}
+								}
+								// a direct call of a sibling closure: it runs with what is held here
+								for _, g := range tree {
+									if callsClosure(call, g) {
+										held := map[string]bool{}
+										for l := range cur {
+											held[l] = true
+										}
+										if old, ok := next[g]; ok {
+											for l := range old {
+												if !held[l] {
+													delete(old, l)
+												}
+											}
+										} else {
+											next[g] = held
+										}
+										called[g] = true
+									}
+								}
+							}
+							// a dereference of a pointer parameter: *p read or written
+							var target ssa.Value
+							switch t := ins.(type) {
+							case *ssa.UnOp:
+								if t.Op == token.MUL {
+									if inner, ok := t.X.(*ssa.UnOp); ok && inner.Op == token.MUL {
+										target = inner.X
+									} else if prm, ok := t.X.(*ssa.Parameter); ok {
+										target = prm
+									}
+								}
+							case *ssa.Store:
+								if inner, ok := t.Addr.(*ssa.UnOp); ok && inner.Op == token.MUL {
+									target = inner.X
+								} else if prm, ok := t.Addr.(*ssa.Parameter); ok {
+									target = prm
+								}
+							}
+							if target != nil {
+								if n := rootName(target); ptrs[n] {
+									held := map[string]bool{}
+									for l := range cur {
+										held[l] = true
+									}
+									acc[n] = append(acc[n], access{held, ins.Pos()})
+								}
+							}
+						}
+						for _, succ := range b.Succs {
+							old, ok := in[succ]
+							if !ok {
+								c := map[string]bool{}
+								for l := range cur {
+									c[l] = true
+								}
+								in[succ] = c
+								work = append(work, succ)
+								continue
+							}
+							changed := false
+							for l := range old {
+								if !cur[l] {
+									delete(old, l)
+									changed = true
+								}
+							}
+							if changed || !seenB[succ] {
+								seenB[succ] = true
+								work = append(work, succ)
+							}
+						}
+					}
+				}
+				same := len(next) == len(entry)
+				for g, ls := range next {
+					if len(entry[g]) != len(ls) {
+						same = false
+					}
+				}
+				entry = next
+				if same {
+					break
+				}
+			}
+			for _, pn := range sortedStrs(ptrs) {
+				as := acc[pn]
+				if len(as) == 0 {
+					continue
+				}
+				common := map[string]bool{}
+				for l := range as[0].held {
+					common[l] = true
+				}
+				anyHeld := len(as[0].held) > 0
+				var at token.Pos
+				for _, a := range as[1:] {
+					if len(a.held) > 0 {
+						anyHeld = true
+					}
+					for l := range common {
+						if !a.held[l] {
+							delete(common, l)
+							at = a.pos
+						}
+					}
+				}
+				if !anyHeld {
+					continue // never accessed under any of the locks it came with: not protected by them
+				}
+				note := ""
+				if len(common) == 0 {
+					if at == token.NoPos {
+						at = as[0].pos
+					}
+					note = fmt.Sprintf("*%s is accessed under a lock in one place and without it at %s", pn, pc.pos(at))
+				}
+				pc.add([]string{"C13", "C05"}, fmt.Sprintf("P7/%s/param:%s-under-one-lock", name, pn),
+					"state that a helper reaches through a pointer parameter and accesses under a lock it was given is accessed under that lock everywhere in the helper", len(common) > 0, note, pc.pos(at))
+			}
+		}
+	}
+}
+
+// callsClosure: the call invokes closure g directly (through the local variable it was bound to).
+func callsClosure(call *ssa.Call, g *ssa.Function) bool {
+	v := call.Common().Value
+	if v == nil || call.Common().IsInvoke() {
+		return false
+	}
+	switch t := v.(type) {
+	case *ssa.MakeClosure:
+		return t.Fn == ssa.Value(g)
+	case *ssa.Function:
+		return t == g
+	case *ssa.UnOp:
+		// a closure kept in a cell: find the stores of that cell
+		if t.Op == token.MUL {
+			var cell ssa.Value = t.X
+			if fv, ok := cell.(*ssa.FreeVar); ok {
+				// resolve to the alloc of the enclosing function with that name
+				for f := fv.Parent().Parent(); f != nil; f = f.Parent() {
+					for _, b := range f.Blocks {
+						for _, ins := range b.Instrs {
+							if al, ok := ins.(*ssa.Alloc); ok && al.Comment == fv.Name() {
+								cell = al
+							}
+						}
+					}
+				}
+			}
+			if al, ok := cell.(*ssa.Alloc); ok {
+				for _, r := range *al.Referrers() {
+					if st, ok := r.(*ssa.Store); ok {
+						if mc, ok := st.Val.(*ssa.MakeClosure); ok && mc.Fn == ssa.Value(g) {
+							return true
+						}
+					}
+				}
+			}
+		}
+	}
+	return false
+}
